@@ -145,6 +145,7 @@ type Job struct {
 	Shards       int              `json:"shards"`       // > 0: also the proxy over this many shards (shards.go)
 	GhostMask    int              `json:"ghostMask"`    // bit i: shard i has a first replica that never got the request
 	Perm         int              `json:"perm"`         // the order in which the shards finish, and where they resume from
+	Queue        int              `json:"queue"`        // > 0: also this many queue behaviours (queue.go: Parallelism < outstanding requests)
 }
 
 var (
@@ -155,6 +156,8 @@ var (
 	covFile    = flag.String("cov", "", "append the ids of the behaviours replayed by this process to this file")
 	pvecFile   = flag.String("pvecs", "", "file with the proxy-level vectors of AsyncSearch.tla (EmitPVec, reduced to classes)")
 	pcovFile   = flag.String("pcov", "", "append the keys of the proxy-level vectors replayed by this process to this file")
+	qbehFile   = flag.String("qbehs", "", "file with the queue behaviours of AsyncSearch.tla (a crash while requests wait for a worker slot)")
+	svecFile   = flag.String("svecs", "", "file with the start vectors of AsyncSearch.tla (EmitStart: accepting replicas -> id or error)")
 	behs       = map[int][]Beh{} // captured fractions -> behaviours
 	cursor     = map[int]int{}
 	cursorMu   sync.Mutex
@@ -199,12 +202,38 @@ func hook(point string, obj any, a, b int64) {
 	}
 	g, ok := gates.LoadAndDelete(name)
 	if !ok {
+		qhook(name)
 		return
 	}
 	gt := g.(*gate)
 	close(gt.arrived)
 	if !<-gt.verdict {
 		runtime.Goexit() // deferred unlocks of the real code run; nothing else of the request does
+	}
+}
+
+// qgate stops the first `need` goroutines that are about to read the given fraction (queue.go): the
+// searches that occupy the worker slots.  Later readers pass.
+type qgate struct {
+	need    atomic.Int32
+	arrived chan struct{}
+	verdict chan bool
+}
+
+var qgates sync.Map // base file name -> *qgate
+
+func qhook(name string) {
+	g, ok := qgates.Load(name)
+	if !ok {
+		return
+	}
+	qg := g.(*qgate)
+	if qg.need.Add(-1) < 0 {
+		return
+	}
+	qg.arrived <- struct{}{}
+	if !<-qg.verdict {
+		runtime.Goexit()
 	}
 }
 
@@ -399,11 +428,18 @@ const pipeSuffix = "|7|"
 type dirFiles struct {
 	dir   string
 	names []string // captured fraction names, then (if any) the new fraction's name
+	id    string   // "" = reqID
 }
 
-func (d *dirFiles) info() string        { return filepath.Join(d.dir, reqID+".info") }
+func (d *dirFiles) rid() string {
+	if d.id == "" {
+		return reqID
+	}
+	return d.id
+}
+func (d *dirFiles) info() string        { return filepath.Join(d.dir, d.rid()+".info") }
 func (d *dirFiles) itmp() string        { return d.info() + ".tmp" }
-func (d *dirFiles) qpr(i int) string    { return filepath.Join(d.dir, reqID+"."+d.names[i]+".qpr") }
+func (d *dirFiles) qpr(i int) string    { return filepath.Join(d.dir, d.rid()+"."+d.names[i]+".qpr") }
 func (d *dirFiles) qtmp(i int) string   { return d.qpr(i) + ".tmp" }
 func read(p string) ([]byte, bool)      { b, err := os.ReadFile(p); return b, err == nil }
 func infoDone(b []byte) (bool, bool)    { var x struct{ Done *bool }; if json.Unmarshal(b, &x) != nil || x.Done == nil { return false, false }; return *x.Done, true }
@@ -1144,6 +1180,9 @@ func runJob(j *Job) {
 			report(-3, m)
 		}
 	}
+	if j.Queue > 0 {
+		w.queueJob(report)
+	}
 }
 
 // ---------------------------------------------------------------- order probe (run under strace)
@@ -1212,6 +1251,10 @@ func main() {
 		}
 		fh.Close()
 	}
+	if err := loadQueueAndStart(); err != nil {
+		emit(map[string]any{"infra": err.Error()})
+		os.Exit(3)
+	}
 	if *pvecFile != "" {
 		fh, err := os.Open(*pvecFile)
 		if err != nil {
@@ -1256,6 +1299,9 @@ func main() {
 	if len(jobs) > 0 {
 		for nf := range behs {
 			cursor[nf] = jobs[0].Pick
+		}
+		for nf := range qbehs {
+			qcursor[nf] = jobs[0].Pick
 		}
 	}
 	ch := make(chan *Job)
@@ -1302,8 +1348,14 @@ func main() {
 		pcovered.Range(func(k, _ any) bool { ks = append(ks, fmt.Sprint(k)); return true })
 		if fh, err := os.OpenFile(*pcovFile, os.O_APPEND|os.O_CREATE|os.O_WRONLY, 0o644); err == nil {
 			fmt.Fprintln(fh, strings.Join(ks, " "))
-			fmt.Fprintf(fh, "#stats shardJobs=%d vectors=%d vectorsSkipped=%d liveFetches=%d shardInterruptions=%d fds=%d\n",
-				shardJobs.Load(), vecsRun.Load(), vecsSkip.Load(), liveObs.Load(), shardKills.Load(), nfd)
+			var qs, ss []string
+			qcovered.Range(func(k, _ any) bool { qs = append(qs, fmt.Sprint(k)); return true })
+			scovered.Range(func(k, _ any) bool { ss = append(ss, fmt.Sprint(k)); return true })
+			fmt.Fprintln(fh, "#qcov "+strings.Join(qs, " "))
+			fmt.Fprintln(fh, "#scov "+strings.Join(ss, " "))
+			fmt.Fprintf(fh, "#stats shardJobs=%d vectors=%d vectorsSkipped=%d liveFetches=%d shardInterruptions=%d fds=%d queueBehaviours=%d queuedRequestsRestarted=%d queueSkipped=%d startVectors=%d startRefused=%d startFollowed=%d\n",
+				shardJobs.Load(), vecsRun.Load(), vecsSkip.Load(), liveObs.Load(), shardKills.Load(), nfd,
+				qRun.Load(), qQueued.Load(), qSkip.Load(), sRun.Load(), sErr.Load(), sFollowed.Load())
 			fh.Close()
 		}
 	}
